@@ -2,8 +2,10 @@ package node_manager
 
 import (
 	"crypto/sha256"
+	"encoding/hex"
 
 	"github.com/polynetwork/poly/common"
+	cstates "github.com/polynetwork/poly/core/states"
 	"github.com/polynetwork/poly/native"
 	"github.com/polynetwork/poly/native/service/utils"
 	"github.com/polynetwork/poly/native/storage"
@@ -132,7 +134,7 @@ func ZZ_C32_OneStep_witness() {
 
 // ---- sequences over two requests ------------------------------------------------------------------------------------
 
-var zzMethods = []string{APPROVE_CANDIDATE, BLACK_NODE, WHITE_NODE}
+var zzMethods = []string{APPROVE_CANDIDATE, BLACK_NODE}
 
 // ZZ_C32_OtherRequestsDoNotCount: approvals are filed under (method, request). A history of T approvals, each for one
 // of two different (method, request) pairs and by an arbitrary member or the outsider, is compared with a model that
@@ -146,7 +148,7 @@ func zzTwoRequestHistory() (lastOK bool, lastWant bool) {
 	var input [2][]byte
 	method[0] = zzMethods[0]
 	method[1] = zzMethods[zzsym.Choose("method2", len(zzMethods))]
-	input[0] = zzsym.Bytes("request1", 8)
+	input[0] = []byte{1, 0, 0, 0, 0, 0, 0, 0} // request 1 is fixed, request 2 is every other 8-byte id
 	input[1] = zzsym.Bytes("request2", 8)
 	if method[0] == method[1] {
 		zzsym.Assume(string(input[0]) != string(input[1])) // the two pairs differ: same action => different request
@@ -191,4 +193,194 @@ func ZZ_C32_OtherRequestsDoNotCount() {
 func ZZ_C32_OtherRequestsDoNotCount_witness() {
 	ok, _ := zzTwoRequestHistory()
 	zzsym.Assert(!ok, "WITNESS: a history ends with a decisive approval")
+}
+
+// ---- the Approve* callers of this package ------------------------------------------------------------------------------
+//
+// Each caller runs for real on a pool of N consensus validators with a pending request. A history of up to T approvals
+// by arbitrary members / the outsider (repeats allowed) is compared with the count rule: the action must take effect
+// exactly at the approval that brings the distinct validators to ceil(2N/3), never earlier, never later.
+
+func zzPeerInput(pubkey string, who common.Address) []byte {
+	sink := common.NewZeroCopySink(nil)
+	(&PeerParam{PeerPubkey: pubkey, Address: who}).Serialization(sink)
+	return sink.Bytes()
+}
+
+func zzPeerListInput(pubkeys []string, who common.Address) []byte {
+	sink := common.NewZeroCopySink(nil)
+	(&PeerListParam{PeerPubkeyList: pubkeys, Address: who}).Serialization(sink)
+	return sink.Bytes()
+}
+
+func zzApprovalHistory(n int, approve func(who common.Address) error, applied func() bool) {
+	set := 0
+	T := zzsym.Param("T")
+	for t := 0; t < T; t++ {
+		who := zzsym.Choose("approver", n+1)
+		err := approve(zzActor(who, n))
+		zzsym.Assert(err == nil, "an approval of a pending request by a witnessed address does not fail")
+		set |= 1 << uint(who)
+		cnt := 0
+		for i := 0; i < n; i++ {
+			if set>>uint(i)&1 == 1 {
+				cnt++
+			}
+		}
+		want := 3*cnt >= 2*n
+		zzsym.Assert(applied() == want, "the action takes effect exactly at the approval completing ceil(2N/3) distinct current validators")
+		if want {
+			zzsym.Cover("effect")
+			return
+		}
+		if who == n {
+			zzsym.Cover("outsider-ignored")
+		}
+	}
+	zzsym.Cover("still-pending")
+}
+
+func zzInPool(db *storage.CacheDB, pubkey string, st Status) bool {
+	view, err := GetView(zzNative(db, nil))
+	if err != nil {
+		panic("zz: view")
+	}
+	m, err := GetPeerPoolMap(zzNative(db, nil), view)
+	if err != nil {
+		panic("zz: pool")
+	}
+	it, ok := m.PeerPoolMap[pubkey]
+	return ok && it.Status == st
+}
+
+func zzCandidateSetup() (db *storage.CacheDB, n int, cand string) {
+	n = zzsym.Param("N")
+	db = zzNewCacheDB()
+	zzConsensusPool(db, n)
+	putCandidateIndex(zzNative(db, nil), uint32(n+1))
+	cand = zzValidatorKeyHex[n] // a real key that is not in the pool
+	owner := zzValidatorAddr(n)
+	sink := common.NewZeroCopySink(nil)
+	(&RegisterPeerParam{PeerPubkey: cand, Address: owner}).Serialization(sink)
+	_, err := RegisterCandidate(zzNative(db, sink.Bytes(), owner))
+	zzsym.Assert(err == nil, "owner can apply as candidate")
+	return
+}
+
+func ZZ_C32_ApproveCandidate() {
+	db, n, cand := zzCandidateSetup()
+	zzApprovalHistory(n,
+		func(who common.Address) error {
+			_, err := ApproveCandidate(zzNative(db, zzPeerInput(cand, who), who))
+			return err
+		},
+		func() bool { return zzInPool(db, cand, CandidateStatus) })
+}
+
+func ZZ_C32_ApproveCandidate_witness() {
+	db, n, cand := zzCandidateSetup()
+	for t := 0; t < zzsym.Param("T"); t++ {
+		who := zzActor(zzsym.Choose("approver", n+1), n)
+		ApproveCandidate(zzNative(db, zzPeerInput(cand, who), who))
+	}
+	zzsym.Assert(!zzInPool(db, cand, CandidateStatus), "WITNESS: some history admits the candidate")
+}
+
+func zzBlackListed(db *storage.CacheDB, pubkey string) bool {
+	raw, _ := hex.DecodeString(pubkey)
+	return zzRawGet(db, utils.ConcatKey(utils.NodeManagerContractAddress, []byte(BLACK_LIST), raw)) != nil
+}
+
+// BlackNode: N consensus validators plus one candidate-status member that is to be blacklisted (N >= 4 so that the
+// minimum-pool guard does not interfere: N+1 active members > MIN_PEER_NUM).
+func zzBlackSetup() (db *storage.CacheDB, n int, target string) {
+	n = zzsym.Param("N")
+	db = zzNewCacheDB()
+	st := make([]Status, n+1)
+	for i := 0; i < n; i++ {
+		st[i] = ConsensusStatus
+	}
+	st[n] = CandidateStatus
+	zzPutPeerPool(db, 1, st)
+	target = zzValidatorKeyHex[n]
+	return
+}
+
+func ZZ_C32_BlackNode() {
+	db, n, target := zzBlackSetup()
+	zzApprovalHistory(n,
+		func(who common.Address) error {
+			_, err := BlackNode(zzNative(db, zzPeerListInput([]string{target}, who), who))
+			return err
+		},
+		func() bool { return zzBlackListed(db, target) && zzInPool(db, target, BlackStatus) })
+}
+
+func ZZ_C32_BlackNode_witness() {
+	db, n, target := zzBlackSetup()
+	for t := 0; t < zzsym.Param("T"); t++ {
+		who := zzActor(zzsym.Choose("approver", n+1), n)
+		BlackNode(zzNative(db, zzPeerListInput([]string{target}, who), who))
+	}
+	zzsym.Assert(!zzBlackListed(db, target), "WITNESS: some history blacklists the target")
+}
+
+func zzWhiteSetup() (db *storage.CacheDB, n int, target string) {
+	n = zzsym.Param("N")
+	db = zzNewCacheDB()
+	zzConsensusPool(db, n)
+	target = zzValidatorKeyHex[n]
+	raw, _ := hex.DecodeString(target)
+	sink := common.NewZeroCopySink(nil)
+	(&BlackListItem{PeerPubkey: target, Address: zzValidatorAddr(n)}).Serialization(sink)
+	db.Put(utils.ConcatKey(utils.NodeManagerContractAddress, []byte(BLACK_LIST), raw), cstates.GenRawStorageItem(sink.Bytes()))
+	return
+}
+
+func ZZ_C32_WhiteNode() {
+	db, n, target := zzWhiteSetup()
+	zzApprovalHistory(n,
+		func(who common.Address) error {
+			_, err := WhiteNode(zzNative(db, zzPeerInput(target, who), who))
+			return err
+		},
+		func() bool { return !zzBlackListed(db, target) })
+}
+
+func ZZ_C32_WhiteNode_witness() {
+	db, n, target := zzWhiteSetup()
+	for t := 0; t < zzsym.Param("T"); t++ {
+		who := zzActor(zzsym.Choose("approver", n+1), n)
+		WhiteNode(zzNative(db, zzPeerInput(target, who), who))
+	}
+	zzsym.Assert(zzBlackListed(db, target), "WITNESS: some history whitelists the target")
+}
+
+// ZZ_C32_ReplacedCandidateRequest: approvals are filed under (approveCandidate, pubkey string) only. A candidacy can be
+// withdrawn (unRegisterCandidate) and filed again for the same key with another owner address; approvals given to the
+// withdrawn request must not count for the new one. N = 4, quorum 3: validators 0 and 1 approve (key, owner A), the
+// request is withdrawn and re-filed as (key, owner B), validator 2 approves.
+func ZZ_C32_ReplacedCandidateRequest() {
+	db, _, cand := zzCandidateSetup() // request by owner A = zzValidatorAddr(N)
+	n := zzsym.Param("N")
+	ownerA := zzValidatorAddr(n)
+	for i := 0; i < 2; i++ {
+		_, err := ApproveCandidate(zzNative(db, zzPeerInput(cand, zzValidatorAddr(i)), zzValidatorAddr(i)))
+		zzsym.Assert(err == nil, "validators 0 and 1 approve the first request")
+	}
+	zzsym.Assert(!zzInPool(db, cand, CandidateStatus), "two of four approvals are not a quorum")
+	_, err := UnRegisterCandidate(zzNative(db, zzPeerInput(cand, ownerA), ownerA))
+	zzsym.Assert(err == nil, "owner A withdraws the request")
+	var ownerB common.Address
+	copy(ownerB[:], zzsym.Bytes("ownerB", 20))
+	zzsym.Assume(ownerB != ownerA)
+	sink := common.NewZeroCopySink(nil)
+	(&RegisterPeerParam{PeerPubkey: cand, Address: ownerB}).Serialization(sink)
+	_, err = RegisterCandidate(zzNative(db, sink.Bytes(), ownerB))
+	zzsym.Assert(err == nil, "B files a new request for the same key")
+	_, err = ApproveCandidate(zzNative(db, zzPeerInput(cand, zzValidatorAddr(2)), zzValidatorAddr(2)))
+	zzsym.Assert(err == nil, "validator 2 approves")
+	zzsym.Cover("replaced")
+	zzsym.Assert(!zzInPool(db, cand, CandidateStatus),
+		"a re-filed candidacy takes effect only after ceil(2N/3) validators approved the new request itself (here: one did)")
 }
